@@ -228,6 +228,8 @@ int tr_recv_sim(const void *sock, void *buf, const size_t len, const time_t time
 	sim_cancel_point();
 	unsigned k = ++p.recv_calls;
 	W.ctx.count("recv_calls");
+	if (p.cur_x >= 0)
+		p.xs[(size_t)p.cur_x].recv_calls_used = k;
 	if (!p.open) {
 		sim_log(EV_IO, (3u << 8) | (unsigned)p.si, (uint64_t)-1);
 		return TR_ERROR;
@@ -1937,6 +1939,28 @@ void run_world(const J &plan, RunCtx &ctx)
 			sites.push(s);
 		}
 		ctx.extra["alloc_sites"] = sites;
+		// transport calls / PDUs / bytes per scripted exchange of cache 0 (for the single-fault sweep of C03 / C08)
+		J fsites = J::arr();
+		for (size_t i = 0; i < p0.xs.size(); i++) {
+			const Exchange &x = p0.xs[i];
+			if (x.script_index < 0)
+				continue;
+			size_t npdu = 0, pos = 0;
+			while (pos + 8 <= x.bytes.size()) {
+				uint32_t l = get32(&x.bytes[pos + 4]);
+				if (l < 8 || pos + l > x.bytes.size())
+					break;
+				pos += l;
+				npdu++;
+			}
+			J s = J::arr();
+			s.push(x.script_index);
+			s.push((long long)x.recv_calls_used);
+			s.push((long long)npdu);
+			s.push((long long)x.bytes.size());
+			fsites.push(s);
+		}
+		ctx.extra["fault_sites"] = fsites;
 	}
 	uint64_t nx = 0;
 	for (auto &p : W.peers)
